@@ -10,6 +10,12 @@
     pointer stays nil while the clone allocates.  `Go.goodB` is a checker for it.
   * `Iso.refFree st d a` (JSV/Proofs/IsoValid.lean): the unfolding of `a` ends within depth `d` and no schema object of
     it has a `$ref` or a `$dynamicRef` (decidable).
+  * `Go.RIso.*` (JSV/Proofs/ResIso*.lean): Resolve commutes with a renaming of schema node ids (`resolve_rel`);
+    `NoDocs env`: the resolution is self-contained (no Loader, or a Loader that hands out no document);
+    `specOf st rs reMatch`: the Spec environment read off a store and the tables of a `Resolved`.
+  Validation behaviour of the clone: `clone_validates_same` (trees with references, both sides resolved),
+  `clone_validate_same` (the evaluator), `clone_resolves_iff`; the older `*_partial` statements are for reference-free
+  trees under ARBITRARY tables.
 -/
 import JSV.Proofs.MshNode
 import JSV.Proofs.MshFacts
@@ -169,10 +175,10 @@ theorem clone_total_of_checkStructure (st : Store) (root : NodeId) (cfuel : Nat)
     Proof: `Go.cloneFuel_sim` gives the simulation `Go.Sim` between the two subtrees (node by node `Go.NodeRel`: a
     shallow copy whose schema-valued fields have the same shape and related members); it is an `Iso.EnvSim`, and
     validity is invariant under a renaming of node ids (`Iso.evalFuel_sim`).
-    PARTIAL: trees that contain `$ref` / `$dynamicRef` are not covered.  Their meaning depends on the resolution tables,
-    which `Resolve` computes separately for the clone (by URI, from `$id` / `$anchor` / paths); the statement then needs
-    "`Resolve` of the clone yields tables related to those of the original" (`Iso.TablesSim`), which is not proved.
-    `Iso.evalFuel_sim` itself covers references: see the example at the end of JSV/Proofs/IsoValid.lean. -/
+    PARTIAL: trees that contain `$ref` / `$dynamicRef` are not covered by THIS statement (arbitrary, unrelated tables).
+    Their meaning depends on the resolution tables, which `Resolve` computes separately for the clone (by URI, from
+    `$id` / `$anchor` / paths); for them see `clone_validates_same` below: `Resolve` of the clone yields tables related
+    to those of the original (`Go.RIso.resolve_rel`), and then `Iso.evalFuel_sim` applies. -/
 theorem clone_validates_same_partial (B d : Nat) (st : Store) (root c : NodeId) (st' : Store)
     (hg : Go.Good B st d root) (hfree : Iso.refFree st d root = true)
     (h : Go.clone st root = .ok (c, st')) (hB : st'.size ≤ B)
